@@ -7,7 +7,7 @@ import subprocess
 import tempfile
 import time
 
-from lib import vf
+from lib import vf, wmmlib
 
 LEVEL = "fault_enumeration"
 SRC = ["engines/crashx/child.cpp"]
@@ -21,6 +21,7 @@ DESC = {"segv": "Segmentation fault", "abrt": "Aborted", "fpe": "Floating point 
 
 def prebuild():
     vf.build("crashx_child", SRC, FLAGS)
+    wmmlib.build_sys()
 
 
 def cases(tier):
@@ -150,11 +151,26 @@ def run(ctx):
                     ctx.sample({"case": c, "file": got})
     finally:
         shutil.rmtree(base, ignore_errors=True)
+    # Backend::stop() below process granularity (Engine A, whole-system variant): the real stop() on a frontend thread against the
+    # backend thread's loop (real _poll / _exit), at every atomic operation and with every load value the C++11 model admits:
+    # when stop() has returned (request + join) every statement the stopping thread logged before is at the sink
+    hs = wmmlib.build_sys()
+    sj = [wmmlib.sys_stop_job(hs, 0, 1, "l1,S0"), wmmlib.sys_stop_job(hs, 0, 2, "l1,l2,S0"), wmmlib.sys_stop_job(hs, 0, 0, "l1,l2,l3,l4,S0"),
+          wmmlib.sys_stop_job(hs, 0, 1, "l1,x0,l2,S0")]
+    if ctx.tier != "quick":
+        sj += [wmmlib.sys_stop_job(hs, 1, 1, "l1,S0", "l1", deadline=1500), wmmlib.sys_stop_job(hs, 0, 3, "l1,l2,l3,S0", deadline=1500), wmmlib.sys_stop_job(hs, 1, 1, "l1,S0", "l1,x0", deadline=1500),
+               wmmlib.sys_stop_job(hs, 0, 2, "l1,x0,l2,S0", deadline=1500)]
+    wmmlib.run_sys(ctx, sj)
+    ctx.rule += ("; Backend::stop() at atomic-operation granularity (Engine A whole-system variant): real log calls and the real stop() against the "
+                 "backend thread's loop and final drain, all interleavings and C++11-admissible load values")
+    ctx.assumptions.append("the backend thread's two-line loop (while (running.load(order)) _poll(); _exit();) is replayed by the harness with the memory order read from the source; the driver fails if the loop in BackendWorker::run no longer has that shape")
     ctx.assumptions.append("backend progress at the fault is controlled at sink-write granularity (gated FileSink), not at finer points")
     ctx.assumptions.append("'backend asleep' (one-hour sleep) is enumerated for stop/exit/return, which wake the backend; a handled signal needs a backend that polls (documented: flush_log blocks for up to sleep_duration)")
 
 
 def replay(rep, extra):
+    if wmmlib.is_sys_record(rep["record"]):
+        return wmmlib.replay_sys("C07", rep)
     exe = vf.build("crashx_child", SRC, FLAGS)
     rec = rep["record"]
     c = {}
